@@ -7,6 +7,7 @@ package term
 import (
 	"fmt"
 	"math"
+	"sort"
 	"strconv"
 	"strings"
 	"sync"
@@ -296,6 +297,7 @@ func And(xs ...*Term) *Term {
 	case 1:
 		return out[0]
 	}
+	sort.Slice(out, func(i, j int) bool { return out[i].ID < out[j].ID })
 	return mk(OpAnd, Bool, out...)
 }
 
@@ -339,6 +341,7 @@ func Or(xs ...*Term) *Term {
 	case 1:
 		return out[0]
 	}
+	sort.Slice(out, func(i, j int) bool { return out[i].ID < out[j].ID })
 	return mk(OpOr, Bool, out...)
 }
 
